@@ -67,3 +67,51 @@ Theorem C18_source_filtered_fetch_is_model : forall src f a b rv,
   g_filtered_fetch src f a b rv = filter f (src a b rv).
 Proof. exact g_filtered_fetch_eq. Qed.
 Print Assumptions C18_source_filtered_fetch_is_model.
+
+(* ---- tie C (third extension, tag filt): calgebra/properties.py and the Filter classes of core.py as the
+   code has them.  The objects are built by the translated public API (Property.__ge__ .., one_of, has_any,
+   has_all, Filter.__and__ / __or__: [src_build]) and applied by the translated apply methods (Operator /
+   Or / And .apply, Duration / Start / End .apply, field: [src_apply]); a filter's apply may raise, so its
+   result is a [res bool].  TRUSTED float reading as above: (end - start) / scale is the exact rational. *)
+From CG Require Import Model.Loop Model.FiltVal Proofs.GenEq_filt.
+
+(* whenever the code's evaluation completes with a Boolean, it is feval's *)
+Theorem C18_source_filter_apply_is_feval : forall env i f b,
+  in_model f = true -> src_apply env (src_build f) i = RDone b -> feval env f i = b.
+Proof. exact src_filter_sound. Qed.
+Print Assumptions C18_source_filter_apply_is_feval.
+
+(* and it always completes on comparisons of duration / start / end with ints or with each other, and on
+   their & / | combinations: there the code computes feval *)
+Theorem C18_source_time_filters_are_feval : forall env i f,
+  time_frag f = true -> src_apply env (src_build f) i = RDone (feval env f i).
+Proof. exact src_filter_time_total. Qed.
+Print Assumptions C18_source_time_filters_are_feval.
+
+Theorem C18_source_duration_threshold : forall env scale c k s e p b,
+  src_apply env (src_build (FCmp (PDur scale) c (VInt k))) (mkI (Some s) (Some e) p) = RDone b ->
+  (b = true <-> dur_q_cmp c (e - s) scale k).
+Proof.
+  intros env scale c k s e p b H.
+  rewrite (src_filter_time_total env (mkI (Some s) (Some e) p) (FCmp (PDur scale) c (VInt k)) eq_refl) in H.
+  injection H as <-. cbn [feval]. exact (duration_threshold env scale c k s e p).
+Qed.
+Print Assumptions C18_source_duration_threshold.
+
+(* T & f through the translated Filtered.fetch and the translated filter: exactly the source's events that
+   satisfy the predicate *)
+Theorem C18_source_filtered_exact : forall env s f a b rv x,
+  time_frag f = true ->
+  In x (g_filtered_fetch (fetch env s)
+          (fun ev => match src_apply env (src_build f) ev with RDone true => true | _ => false end) a b rv)
+  <-> In x (fetch env s a b rv) /\ feval env f x = true.
+Proof.
+  intros env s f a b rv x Hf. rewrite g_filtered_fetch_eq, filter_In.
+  rewrite (src_filter_time_total env x f Hf). destruct (feval env f x); tauto.
+Qed.
+Print Assumptions C18_source_filtered_exact.
+
+Example C18_source_hypotheses_satisfiable :
+  in_model (FAnd [FCmp (PDur 3600) Ge (VInt 2); FOr [FHasAll 2%N [1%N; 2%N]; FCmp (PField 0%N) Eq (VInt 9)]]) = true /\
+  time_frag (FAnd [FCmp (PDur 3600) Ge (VInt 2); FCmpP PStart Lt PEnd]) = true.
+Proof. split; reflexivity. Qed.
